@@ -33,6 +33,8 @@ from ..core import Ctx, Report, alarm
 from ..tlc import MachineryError
 
 STEADY = ("steady_state", "mc.steady_state", "mc.scan_steady_state")
+# kinds whose result container is keyed by the row label (a dict)
+DICT_KINDS = ("time_course", "protocol", "protocol_time_course", "mc.time_course", "mc.scan_steady_state")
 EVAL_KINDS = ("steady_state", "time_course", "mc.steady_state", "mc.time_course")   # flux parameters recoverable
 
 
@@ -78,6 +80,11 @@ def observed_eval(obs_v: dict, obs_f: dict, xname: str = "x") -> dict:
 def spec_crosscheck(sc: dict) -> None:
     """The renderer's numbers must be the specification's: Expected(i) of ParMap.tla vs scankit's row values."""
     cfg = sc["cfg"]
+    real_labels, spec_labels = sk.labels_of(sc), sc["labels"]
+    for a in range(cfg["n"]):
+        for b in range(cfg["n"]):
+            if (real_labels[a] == real_labels[b]) != (spec_labels[a] == spec_labels[b]):
+                raise MachineryError(f"spec/renderer cross-check: rows {a + 1}, {b + 1} share a label in one of them only: {sc}")
     for i in range(1, cfg["n"] + 1):
         e = sc["expect"][i - 1]
         if (e["t"] == "nan") != (i == cfg["fail"]):
@@ -103,11 +110,20 @@ def _row_frames(kind: str, res, sc: dict) -> tuple[list, list, list]:
             vs.append(sk._frame(v.iloc[i:i + 1].set_axis([math.inf])))
             fs.append(sk._frame(f.iloc[i:i + 1].set_axis([math.inf])))
         return labels, vs, fs
-    outer = list(dict.fromkeys(v.index.get_level_values(0)))
-    for lab in outer:
-        labels.append([lab])
-        vs.append(sk._frame(v.loc[lab]))
-        fs.append(sk._frame(f.loc[lab]))
+    # rows are blocks of consecutive entries under one outer label (labels may repeat, never on adjacent rows)
+    lv = list(v.index.get_level_values(0))
+    starts = [j for j in range(len(lv)) if j == 0 or lv[j] != lv[j - 1]]
+    lf = list(f.index.get_level_values(0))
+    fstarts = [j for j in range(len(lf)) if j == 0 or lf[j] != lf[j - 1]]
+    for b, a in enumerate(starts):
+        z = starts[b + 1] if b + 1 < len(starts) else len(lv)
+        labels.append([lv[a]])
+        vs.append(sk._frame(v.iloc[a:z].droplevel(0)))
+    for b, a in enumerate(fstarts):
+        z = fstarts[b + 1] if b + 1 < len(fstarts) else len(lf)
+        fs.append(sk._frame(f.iloc[a:z].droplevel(0)))
+    if len(fs) != len(vs):
+        fs = fs[:len(vs)] + [fs[-1]] * max(0, len(vs) - len(fs))
     return labels, vs, fs
 
 
@@ -185,10 +201,11 @@ def _run_case(sc: dict) -> dict:
         exp_labels = [[float(x) for x in tab.iloc[i]] for i in range(n)]
         got = [[float(x) for x in lab] for lab in labels]
     else:
-        exp_labels = [[lab] for lab in sk.LABELS[:n]]
-        got = labels
+        exp_labels = [[lab] for lab in sk.labels_of(sc)]
+        got = [[x.item() if hasattr(x, "item") else x for x in lab] for lab in labels]
     if got != exp_labels:
-        out.update(status="mismatch", detail={"what": "row labels / order differ from the input", "got": got, "expected": exp_labels})
+        out.update(status="mismatch", detail={"what": "row labels / order differ from the input", "got": got, "expected": exp_labels,
+                                              "rows_reported": len(got), "rows_expected": len(exp_labels)})
         return out
     tr.append({"e": "collect", "i": 0, "w": 0, "order": list(range(1, n + 1)), "t": "", "k": 0, "kineff": 0})
 
@@ -280,6 +297,9 @@ def classify(sc: dict, detail: dict) -> str | None:
         return "protocol-time-course-placeholder-rows"    # only the requested points, not the protocol's own
     if what == "failing row" and detail.get("table") == "fluxes" and detail.get("non_nan_cols") == ["v_in"]:
         return "placeholder-constant-flux"                # the only rate that does not depend on a variable
+    if what.startswith("row labels") and cfg.get("labels") == "repeated" and cfg["kind"] in DICT_KINDS and cfg["n"] >= 3 \
+            and detail.get("got") == [list(x) for x in dict.fromkeys(tuple(e) for e in detail.get("expected", []))]:
+        return "repeated-labels-collapse"        # one entry per distinct label came back (container keyed by label)
     if what.startswith("row differs") or detail.get("tlc") == "eval":
         if cfg["mode"] == "seq" and "x" in cfg["cols"] and "q" not in cfg["cols"] and cfg["variant"] == "ia" \
                 and detail.get("row") != cfg["fail"]:
@@ -359,13 +379,20 @@ def generate(ctx: Ctx, rep: Report) -> list[dict]:
             ("ParMap.tla", "ParMap_mc.cfg", {"workers": 6, "coverage": False})]
     if not ctx.quick:
         jobs.append(("ParMap.tla", "ParMap_mc4.cfg", {"workers": 6}))
-    num = 14 if ctx.quick else 150
-    jobs.append(("ParMap.tla", "ParMap_gen.cfg", {"simulate": f"num={num}", "depth": 90, "seed": ctx.seed % 100000, "workers": 16,
+    num = 28 if ctx.quick else 300          # per TLC worker (8 workers)
+    jobs.append(("ParMap.tla", "ParMap_gen.cfg", {"simulate": f"num={num}", "depth": 90, "seed": ctx.seed % 100000, "workers": 8,
                                                    "coverage": True}))
-    jobs.append(("ParMap.tla", "ParMap_gen_y0.cfg", {"simulate": f"num={4 if ctx.quick else 30}", "depth": 90,
-                                                      "seed": ctx.seed % 100000 + 1, "workers": 16}))
+    jobs.append(("ParMap.tla", "ParMap_gen_y0.cfg", {"simulate": f"num={8 if ctx.quick else 60}", "depth": 90,
+                                                      "seed": ctx.seed % 100000 + 1, "workers": 8}))
     jobs.append(("ParMap.tla", "ParMap_y0again.cfg", {"expect_violation": True, "workers": 2}))
+    jobs.append(("ParMap.tla", "ParMap_bylabel.cfg", {"expect_violation": True, "workers": 2}))
     res = _tlc_many(ctx, jobs)
+    bylabel = res.pop()
+    if bylabel.violated != "RowIndependent":
+        raise MachineryError("the wrong instance 'results looked up by label' with repeated row labels should violate "
+                             f"RowIndependent; TLC said {bylabel.violated!r}")
+    rep.notes["keyed_by_label_counterexample"] = ("TLC: RowIndependent violated for KeyedByLabel=TRUE, rows 1 and 3 under one "
+                                                  "label: row 1 reports row 3's values")
     y0again, gen_y0 = res.pop(), res.pop()
     if y0again.violated != "RowIndependent":
         raise MachineryError("the wrong instance 'y0 applied again after the row' should violate RowIndependent; "
@@ -418,14 +445,14 @@ def run(ctx: Ctx) -> int:
         spec_crosscheck(sc)
         sc["id"] = f"c{n}"
         sc["log"] = str(ctx.work / "logs" / f"c{n}.jsonl")
-    results = crashkit.lanes(run_case, scs, ctx.work, tag="scan")
+    results = crashkit.lanes(run_case, scs, ctx.work, n=8, tag="scan")
     traces, discarded, timeouts, inlane = [], 0, 0, []
     for sc, r in zip(scs, results):
         rep.evaluations += 1
         if r["status"] == "machinery":
             inlane.append(r["detail"])
             continue
-        scen = {k: sc[k] for k in ("cfg", "dur", "forder", "ftick", "eorder", "vals", "expect")}
+        scen = {k: sc[k] for k in ("cfg", "dur", "forder", "ftick", "eorder", "vals", "expect", "labels")}
         if r["status"] == "timeout":
             timeouts += 1
             continue
@@ -469,7 +496,7 @@ def run(ctx: Ctx) -> int:
         ev = t["ev"][pre] if pre < len(t["ev"]) else None
         det = {"what": "recorded scan is not a behaviour of the specification", "tlc": (ev or {}).get("e", "?"),
                "row": (ev or {}).get("i"), "matched_prefix": pre, "first_unmatched_event": ev, "trace": t["ev"]}
-        rep.mismatch({k: sc[k] for k in ("cfg", "dur", "forder", "ftick", "eorder", "vals", "expect")}, det, classify(sc, det))
+        rep.mismatch({k: sc[k] for k in ("cfg", "dur", "forder", "ftick", "eorder", "vals", "expect", "labels")}, det, classify(sc, det))
     if donor and tv["verdict"][donor["id"]]:
         wrongly = [c["id"] for c in corrupt.values() if tv["verdict"][c["id"]]]
         if wrongly or len(corrupt) < 5:
